@@ -117,8 +117,22 @@ def unit_type_of(low, canon):
     return None, None
 
 
-def run(check, T='double'):
-    Q = Quant(check, types=(T,), other_types=(), conv=False, hash_=False, members=True)
+def run_all(check, types=('double', 'float', 'long double')):
+    """All three numeric types: a member can be wrong in one instantiation only (a defaulted Vector<> temporary, a literal)."""
+    from ..core import pmap
+    loaded = pmap(lambda T: Quant(check, types=(T,), other_types=(), conv=False, hash_=False, members=True), list(types))
+    tot = {}
+    for T, Q in zip(types, loaded):
+        st = run(check, T, Q)
+        for k, v in st.items():
+            tot[k] = tot.get(k, 0) + v
+    check.extra['member_forms'] = tot
+    return tot
+
+
+def run(check, T='double', Q=None):
+    if Q is None:
+        Q = Quant(check, types=(T,), other_types=(), conv=False, hash_=False, members=True)
     low = Q.low
     Tb = low.get_tables()
     pick = summary_for(low)
@@ -173,6 +187,9 @@ def run(check, T='double'):
                 bad.append('the accessor modifies the stored value')
             ob.text = 'for all stored values%s: returned component i == Convert(stored component i, Standard, unit) and the object is unchanged' % (
                 ' and all units' if arg_unit is None else ' (unit = enumerator %s)' % arg_unit[1])
+        if S.narrow_bad:
+            to, frm, fn, res = S.narrow_bad[0]
+            bad.append('a %s value is narrowed to %s inside %s on its way into a %s result' % (frm, to, fn, res))
         ob.status = 'discharged' if not bad else 'failed'
         if bad:
             ob.detail = '; '.join(bad[:3])
